@@ -67,27 +67,28 @@ Qed.
 (* frame: what Memory.bind does not touch *)
 Lemma store_bind_frame s prefix ns ov :
   let s' := fst (store_bind s prefix ns ov) in
-  cache s' = cache s /\ cache_s s' = cache_s s /\ strie s' = strie s /\ trie_ s' = trie_ s
-  /\ bad s' = (bad s || bad_bind s prefix ns ov).
+  cache s' = cache s /\ cache_s s' = cache_s s /\ strie s' = strie s /\ trie_ s' = trie_ s.
 Proof.
-  unfold store_bind, bad_bind. destruct ov; simpl.
-  - rewrite orb_false_r.
-    destruct (match coalesce _ _ with Some q => ddel (p2n s) q | None => Some (p2n s) end); simpl; auto.
+  unfold store_bind. destruct ov; simpl.
+  - destruct (match coalesce _ _ with Some q => ddel (p2n s) q | None => Some (p2n s) end); simpl; auto.
     destruct (match dget (p2n s) prefix with Some b => ddel (n2p s) b | None => Some (n2p s) end); simpl; auto.
-  - auto.
+  - destruct (dget (p2n s) prefix); [simpl; auto|].
+    destruct (coalesce (dget (n2p s) ns) None); simpl; auto.
 Qed.
 
+(* Memory.bind never raises on mutually inverse dictionaries, keeps them mutually inverse,
+   and with override the prefix is bound to the namespace afterwards *)
 Lemma store_bind_good s prefix ns ov :
-  bij s -> bad_bind s prefix ns ov = false ->
+  bij s ->
   let r := store_bind s prefix ns ov in
   snd r = true /\ bij (fst r) /\ (ov = true -> dget (p2n (fst r)) prefix = Some ns).
 Proof.
-  intros (Hp & Hn & H) Hbad. unfold store_bind, bad_bind in *.
+  intros (Hp & Hn & H). unfold store_bind.
   destruct (dget (p2n s) prefix) as [b|] eqn:Eb.
   - assert (Hbp : dget (n2p s) b = Some prefix) by now apply H.
-    destruct (dget (n2p s) ns) as [q|] eqn:Eq; cbn [coalesce odefault].
+    destruct (dget (n2p s) ns) as [q|] eqn:Eq; cbn [coalesce].
     + assert (Hq : dget (p2n s) q = Some ns) by now apply H.
-      destruct ov; simpl in Hbad.
+      destruct ov.
       * rewrite (@ddel_Some _ _ _ _ Hq), (@ddel_Some _ _ _ _ Hbp). cbn [fst snd set_maps p2n n2p].
         split; [reflexivity|]. split.
         { split; [|split]; cbn [p2n n2p set_maps].
@@ -95,11 +96,7 @@ Proof.
           - apply dset_NoDup, dremove_NoDup, Hn.
           - now apply fbij_ov_both. }
         intros _. rewrite dget_dset. now rewrite str_eqb_refl.
-      * apply negb_false_iff in Hbad. destruct (str_eqb_spec b ns) as [->|]; [|discriminate].
-        cbn [fst snd set_maps set_bad p2n n2p]. split; [reflexivity|]. split; [|discriminate].
-        split; [|split]; cbn [p2n n2p set_maps set_bad].
-        { apply dset_NoDup, Hp. } { apply dset_NoDup, Hn. }
-        now apply fbij_noop.
+      * cbn [fst snd]. split; [reflexivity|]. split; [|discriminate]. split; [|split]; assumption.
     + rewrite Hbp. destruct ov.
       * rewrite (@ddel_Some _ _ _ _ Eb), (@ddel_Some _ _ _ _ Hbp). cbn [fst snd set_maps p2n n2p].
         split; [reflexivity|]. split.
@@ -108,11 +105,8 @@ Proof.
           - apply dset_NoDup, dremove_NoDup, Hn.
           - now apply fbij_ov_prefix. }
         intros _. rewrite dget_dset. now rewrite str_eqb_refl.
-      * cbn [fst snd set_maps set_bad p2n n2p]. split; [reflexivity|]. split; [|discriminate].
-        split; [|split]; cbn [p2n n2p set_maps set_bad].
-        { apply dset_NoDup, Hp. } { apply dset_NoDup, Hn. }
-        now apply fbij_noop.
-  - destruct (dget (n2p s) ns) as [q|] eqn:Eq; cbn [coalesce odefault].
+      * cbn [fst snd]. split; [reflexivity|]. split; [|discriminate]. split; [|split]; assumption.
+  - destruct (dget (n2p s) ns) as [q|] eqn:Eq; cbn [coalesce].
     + assert (Hq : dget (p2n s) q = Some ns) by now apply H.
       destruct ov.
       * rewrite (@ddel_Some _ _ _ _ Hq). cbn [fst snd set_maps p2n n2p].
@@ -122,10 +116,7 @@ Proof.
           - apply dset_NoDup, Hn.
           - now apply fbij_ov_ns. }
         intros _. rewrite dget_dset. now rewrite str_eqb_refl.
-      * cbn [fst snd set_maps set_bad p2n n2p]. split; [reflexivity|]. split; [|discriminate].
-        split; [|split]; cbn [p2n n2p set_maps set_bad].
-        { apply dset_NoDup, Hp. } { apply dset_NoDup, Hn. }
-        now apply fbij_noop.
+      * cbn [fst snd]. split; [reflexivity|]. split; [|discriminate]. split; [|split]; assumption.
     + destruct ov.
       * cbn [fst snd set_maps p2n n2p].
         split; [reflexivity|]. split.
@@ -134,8 +125,8 @@ Proof.
           - apply dset_NoDup, Hn.
           - now apply fbij_fresh. }
         intros _. rewrite dget_dset. now rewrite str_eqb_refl.
-      * cbn [fst snd set_maps set_bad p2n n2p]. split; [reflexivity|]. split; [|discriminate].
-        split; [|split]; cbn [p2n n2p set_maps set_bad].
+      * cbn [fst snd set_maps p2n n2p]. split; [reflexivity|]. split; [|discriminate].
+        split; [|split]; cbn [p2n n2p set_maps].
         { apply dset_NoDup, Hp. } { apply dset_NoDup, Hn. }
         now apply fbij_fresh.
 Qed.
